@@ -4,6 +4,7 @@ import (
 	"fmt"
 	"go/token"
 	"go/types"
+	"os"
 	"sort"
 	"strings"
 
@@ -1152,7 +1153,7 @@ func ruleMediaFresh(r *Run) {
 		nMedia++
 		res := sl.Slice(ps.MU.Key)
 		dep := res.readsField(p, pkgDoc, "Document", "nextImageID")
-		if dep && !mustReadCounter(p, sl, ps.MU.Key, nil, nil, 0) {
+		if dep && !mustReadCounter(p, sl, ps.MU.Key, nil, 0) {
 			// the name depends on the counter on some path only: a path that takes the name from
 			// somewhere else (the caller's file name) can produce a name a later counter value produces too
 			dep = false
@@ -1730,40 +1731,62 @@ func descriptorKindsAgree(p *Program, fn *ssa.Function, c ssa.CallInstruction, k
 // of Document.nextImageID.  Concatenation and Sprintf contain all their operands; a phi or a callee
 // with several returns must satisfy it on every edge / return.  call/cal give the calling context
 // for values that live in a callee (its parameters stand for the call's arguments).
-func mustReadCounter(p *Program, sl *slicer, v ssa.Value, call *ssa.Call, cal *ssa.Function, depth int) bool {
+type mrcCtx struct {
+	call *ssa.Call
+	cal  *ssa.Function
+	up   *mrcCtx
+}
+
+func mustReadCounter(p *Program, sl *slicer, v ssa.Value, ctx *mrcCtx, depth int) (res bool) {
 	if v == nil || depth > 10 {
 		return false
+	}
+	if os.Getenv("WZ_DEBUG_MRC") != "" {
+		defer func() { fmt.Fprintf(os.Stderr, "%*smrc %T %v -> %v\n", depth*2, "", v, v, res) }()
 	}
 	v = stripConv(v)
 	switch x := v.(type) {
 	case *ssa.Phi:
 		for _, e := range x.Edges {
-			if !mustReadCounter(p, sl, e, call, cal, depth+1) {
+			if !mustReadCounter(p, sl, e, ctx, depth+1) {
 				return false
 			}
 		}
 		return true
 	case *ssa.BinOp:
 		if x.Op == token.ADD {
-			return mustReadCounter(p, sl, x.X, call, cal, depth+1) || mustReadCounter(p, sl, x.Y, call, cal, depth+1)
+			return mustReadCounter(p, sl, x.X, ctx, depth+1) || mustReadCounter(p, sl, x.Y, ctx, depth+1)
 		}
 	case *ssa.MakeInterface:
-		return mustReadCounter(p, sl, x.X, call, cal, depth+1)
+		return mustReadCounter(p, sl, x.X, ctx, depth+1)
 	case *ssa.Parameter:
-		if call != nil && cal != nil {
-			if i := paramIndex(cal, x); i >= 0 && i < len(call.Call.Args) {
-				return mustReadCounter(p, sl, call.Call.Args[i], nil, nil, depth+1)
+		for c := ctx; c != nil; c = c.up {
+			if c.cal == x.Parent() {
+				if i := paramIndex(c.cal, x); i >= 0 && i < len(c.call.Call.Args) {
+					return mustReadCounter(p, sl, c.call.Call.Args[i], c.up, depth+1)
+				}
 			}
 		}
 		return false
 	case *ssa.UnOp:
 		if x.Op == token.MUL {
+			if prm, fidx := paramFieldRead(x); prm != nil {
+				for c := ctx; c != nil; c = c.up {
+					if c.cal == prm.Parent() {
+						if i := paramIndex(c.cal, prm); i >= 0 && i < len(c.call.Call.Args) {
+							if rep, c2 := structFieldOf(c.call.Call.Args[i], fidx, 0); rep != nil {
+								return mustReadCounter(p, sl, rep, &mrcCtx{c2, staticCallee(c2), c.up}, depth+1)
+							}
+						}
+					}
+				}
+			}
 			if al, ok := x.X.(*ssa.Alloc); ok && al.Referrers() != nil {
 				n, okAll := 0, true
 				for _, u := range *al.Referrers() {
 					if st, ok := u.(*ssa.Store); ok && st.Addr == ssa.Value(al) {
 						n++
-						if !mustReadCounter(p, sl, st.Val, call, cal, depth+1) {
+						if !mustReadCounter(p, sl, st.Val, ctx, depth+1) {
 							okAll = false
 						}
 					}
@@ -1773,12 +1796,23 @@ func mustReadCounter(p *Program, sl *slicer, v ssa.Value, call *ssa.Call, cal *s
 				}
 			}
 			if rep, c2 := structFieldRep(x); rep != nil {
-				return mustReadCounter(p, sl, rep, c2, staticCallee(c2), depth+1)
+				return mustReadCounter(p, sl, rep, &mrcCtx{c2, staticCallee(c2), ctx}, depth+1)
 			}
 		}
 	case *ssa.Field:
+		if prm, fidx := paramFieldRead(x); prm != nil {
+			for c := ctx; c != nil; c = c.up {
+				if c.cal == prm.Parent() {
+					if i := paramIndex(c.cal, prm); i >= 0 && i < len(c.call.Call.Args) {
+						if rep, c2 := structFieldOf(c.call.Call.Args[i], fidx, 0); rep != nil {
+							return mustReadCounter(p, sl, rep, &mrcCtx{c2, staticCallee(c2), c.up}, depth+1)
+						}
+					}
+				}
+			}
+		}
 		if rep, c2 := structFieldRep(x); rep != nil {
-			return mustReadCounter(p, sl, rep, c2, staticCallee(c2), depth+1)
+			return mustReadCounter(p, sl, rep, &mrcCtx{c2, staticCallee(c2), ctx}, depth+1)
 		}
 	case *ssa.Extract:
 		if c, ok := x.Tuple.(*ssa.Call); ok {
@@ -1788,7 +1822,7 @@ func mustReadCounter(p *Program, sl *slicer, v ssa.Value, call *ssa.Call, cal *s
 					return false
 				}
 				for _, ret := range rets {
-					if x.Index >= len(ret.Results) || !mustReadCounter(p, sl, ret.Results[x.Index], c, g, depth+1) {
+					if x.Index >= len(ret.Results) || !mustReadCounter(p, sl, ret.Results[x.Index], &mrcCtx{c, g, ctx}, depth+1) {
 						return false
 					}
 				}
@@ -1802,7 +1836,7 @@ func mustReadCounter(p *Program, sl *slicer, v ssa.Value, call *ssa.Call, cal *s
 				return false
 			}
 			for _, ret := range rets {
-				if len(ret.Results) == 0 || !mustReadCounter(p, sl, ret.Results[0], x, g, depth+1) {
+				if len(ret.Results) == 0 || !mustReadCounter(p, sl, ret.Results[0], &mrcCtx{x, g, ctx}, depth+1) {
 					return false
 				}
 			}
@@ -1816,15 +1850,16 @@ func mustReadCounter(p *Program, sl *slicer, v ssa.Value, call *ssa.Call, cal *s
 			return false
 		}
 		for _, a := range x.Call.Args {
-			if mustReadCounter(p, sl, a, call, cal, depth+1) {
-				return true
-			}
-		}
-		if len(x.Call.Args) > 0 {
-			for _, e := range varargElems(x.Call.Args[len(x.Call.Args)-1]) {
-				if mustReadCounter(p, sl, e, call, cal, depth+1) {
-					return true
+			if elems := varargElems(a); elems != nil {
+				for _, e := range elems {
+					if mustReadCounter(p, sl, e, ctx, depth+1) {
+						return true
+					}
 				}
+				continue
+			}
+			if mustReadCounter(p, sl, a, ctx, depth+1) {
+				return true
 			}
 		}
 		return false
